@@ -303,7 +303,18 @@ class Bound:
                 # established: small <= big
                 if self.x(big) == "self.fixed_nb_of_instances" and self.ev(small, stmt) == GA:
                     return True
+        if getattr(self, "outer", None) is not None:
+            ob, call, _oat = self.outer
+            return ob.guard_for(call)
         return False
+
+    def _expand_local(self, e, at):
+        """e with the locals of this function replaced by their (single) definitions"""
+        from ..astutil import fully_expanded
+        try:
+            return fully_expanded(e, self.fn)
+        except Exception:
+            return e
 
     def x(self, e):
         """normalised text with local aliases expanded"""
@@ -311,7 +322,7 @@ class Bound:
         return norm(substitute(e, self.alias))
 
     def ev(self, e, at, depth=0):
-        if depth > 15:
+        if depth > 45:
             return "?"
         EV = lambda x: self.ev(x, at, depth + 1)
         if isinstance(e, ast.Name) and e.id in self.alias:
@@ -323,6 +334,37 @@ class Bound:
                 from ..astutil import set_parents
                 set_parents(inl)._parent = getattr(e, "_parent", None)     # the inlined body sits where the call is
                 return self.ev(inl, at, depth + 1)
+            # a same-class method with several statements / several returns (`self.on_premise_series()`, `self.constant_df(n)`):
+            # every value it can return is bounded in its own body, read in the caller's terms; what its body does not
+            # define (an argument that is a local of the caller, a guard the caller established) is asked of the caller
+            if isinstance(e.func, ast.Attribute) and isinstance(e.func.value, ast.Name) and e.func.value.id == "self" \
+                    and e.func.attr not in PRESERVE:
+                h = self.find_method(e.func.attr)
+                if h is not None and not is_property(h) and depth < 30:
+                    from ..astutil import _bind_call, clone, substitute_stmt, fold_static
+                    hb = clone(h)
+                    hb.body = [substitute_stmt(b, _bind_call(h, e)) for b in hb.body]
+                    fold_static(hb)
+                    for n_ in ast.walk(hb):
+                        for ch in ast.iter_child_nodes(n_):
+                            ch._parent = n_
+                    hb._parent = None
+                    sub = Bound(hb, self.find_method, self.find_function)
+                    sub.outer = (self, e, at)
+                    sub.problems = self.problems
+                    vals = [sub.ev(r.value, r, depth + 1) for r in ast.walk(hb)
+                            if isinstance(r, ast.Return) and r.value is not None]
+                    if vals:
+                        if all(v in (GE, "EMPTY") for v in vals) and GE in vals:
+                            return GE
+                        if all(v == "EMPTY" for v in vals):
+                            return "EMPTY"
+                        for bad in ("BAD", "UNGUARDED"):
+                            if bad in vals:
+                                return bad
+                        if all(v == GA for v in vals):
+                            return GA
+                        return "?"
         if isinstance(e, ast.Attribute) and self.x(e) == "self.raw_nb_of_instances":
             return GE
         if isinstance(e, ast.Attribute) and e.attr in ("value", "magnitude", "values"):
@@ -331,6 +373,9 @@ class Bound:
             ds = [d for d in self.defs.get(e.id, []) if d.lineno < getattr(at, "lineno", 10 ** 9)
                   and self._same_branch(d, at)]
             if not ds:
+                if getattr(self, "outer", None) is not None and e.id not in {a.arg for a in self.fn.args.args}:
+                    ob, _call, oat = self.outer
+                    return ob.ev(e, oat, depth + 1)
                 return "?"
             d = max(ds, key=lambda x: x.lineno)        # reaching definition on this branch
             return self.ev(d.value, d, depth + 1)
@@ -350,8 +395,10 @@ class Bound:
                     return "BAD"
                 if norm(f) in ("np.full",) and len(e.args) >= 2:
                     fill = e.args[1]
-                    if "self.fixed_nb_of_instances" in self.x(fill):
+                    if "self.fixed_nb_of_instances" in self.x(fill) or "self.fixed_nb_of_instances" in norm(self._expand_local(fill, at)):
                         return GE if self.guard_for(e) else "UNGUARDED"
+                    if self.x(e.args[0]).startswith("len(self.raw_nb_of_instances") and EV(fill) == GA:
+                        return GE          # a constant >= the peak at every hour
                     return "?"
                 if norm(f) in ("pd.DataFrame", "pint_pandas.PintArray"):
                     a = e.args[0] if e.args else None
@@ -2204,7 +2251,20 @@ def r_rest(E):
                 h = finder(c.func.attr)
             if h is not None and h.name not in seen:
                 seen.add(h.name)
-                fns.append(h)
+                # read in the caller's terms: a duration converted by the caller and handed over as an argument is still
+                # that converted duration inside the helper
+                try:
+                    from ..astutil import _bind_call, clone as _cln, substitute_stmt as _sbs
+                    m_ = {k: fully_expanded(v, fn0) for k, v in _bind_call(h, c).items()}
+                    hv = _cln(h)
+                    hv.body = [_sbs(b, m_) for b in hv.body]
+                    for n_ in ast.walk(hv):
+                        for ch in ast.iter_child_nodes(n_):
+                            ch._parent = n_
+                    hv._parent = getattr(h, "_parent", None)
+                    fns.append(hv)
+                except Exception:
+                    fns.append(h)
         for fn in fns:
             for c in [x for x in ast.walk(fn) if isinstance(x, (ast.Call, ast.BinOp))]:
                 if isinstance(c, ast.Call):
